@@ -3,6 +3,7 @@ import Yaep.Model.Earley
 import Yaep.Model.Chart
 import Yaep.Model.Recovery
 import Yaep.Model.Api
+import Yaep.Model.Descr
 /-!
 # The judge: compares the observations of the real library with the model
 
@@ -44,16 +45,15 @@ partial def expandToks : List String → List Int
   | [] => []
 
 /-- definition ops: `yaep_read_grammar` through the callbacks -/
-def judgeDef (cid : String) (o : Op) (raw : RawGrammar) (hs : HState) (out : Out) : HState × Out := Id.run do
+def judgeDefRes (prop : String) (cid : String) (o : Op) (res : Except ErrCode Grammar) (hs : HState) (out : Out) : HState × Out := Id.run do
   let mut out := out
-  let res := readGrammar raw
   let obs := (o.first "def").getD []
   let rc := kvInt obs "rc"
   let code := kvInt obs "code"
   let expRc : Int := match res with | .ok _ => 0 | .error e => e
   -- C10 K: success iff no defect; D: the same code as the model's check order
-  out := out.v cid o.n "C10" "K" ((rc == 0) == (expRc == 0)) s!"rc={rc} model={expRc}"
-  out := out.v cid o.n "C10" "D" (rc == expRc) s!"rc={rc} model={expRc}"
+  out := out.v cid o.n prop "K" ((rc == 0) == (expRc == 0)) s!"rc={rc} model={expRc}"
+  out := out.v cid o.n prop "D" (rc == expRc) s!"rc={rc} model={expRc}"
   -- C15: error code = last failing call
   let expCode := (hs.define res).1.lastErr
   out := out.v cid o.n "C15" "K" (code == expCode) s!"error_code={code} expected={expCode}"
@@ -70,11 +70,11 @@ def judgeDef (cid : String) (o : Op) (raw : RawGrammar) (hs : HState) (out : Out
         s!"{g.ntNames.getD A "?"} {A} e={if nl.contains A then 1 else 0} a={if rch.contains A then 1 else 0} d={if pr.contains A then 1 else 0} l={if lp.contains A then 1 else 0}")
       let gotSyms := strSet ((o.get "sym").filterMap fun ws => match ws with
         | "N" :: rest => some (" ".intercalate rest) | _ => none)
-      out := out.v cid o.n "C10" "D" (expSyms == gotSyms) s!"flags model={expSyms} impl={gotSyms}"
+      out := out.v cid o.n prop "D" (expSyms == gotSyms) s!"flags model={expSyms} impl={gotSyms}"
       let expTerms := strSet ((List.range g.nT).map fun a => s!"{g.termNames.getD a "?"} {g.termCodes.getD a 0} {a}")
       let gotTerms := strSet ((o.get "sym").filterMap fun ws => match ws with
         | "T" :: rest => some (" ".intercalate rest) | _ => none)
-      out := out.v cid o.n "C10" "D" (expTerms == gotTerms) s!"terms model={expTerms} impl={gotTerms}"
+      out := out.v cid o.n prop "D" (expTerms == gotTerms) s!"terms model={expTerms} impl={gotTerms}"
       let symName := fun (s : Sym) => match s with
         | .t a => g.termNames.getD a "?" | .n A => g.ntNames.getD A "?"
       let expRules := (List.range g.rules.length).map fun i =>
@@ -84,11 +84,35 @@ def judgeDef (cid : String) (o : Op) (raw : RawGrammar) (hs : HState) (out : Out
           " ".intercalate (r.order.map fun x => match x with | some k => toString k | none => "-1")
       let gotRules := (o.get "grule").map fun ws => " ".intercalate ws
       let norm := fun (s : String) => " ".intercalate (words s)
-      out := out.v cid o.n "C10" "D" (expRules.map norm == gotRules.map norm)
+      out := out.v cid o.n prop "D" (expRules.map norm == gotRules.map norm)
         s!"rules model={expRules} impl={gotRules}"
     return ((hs.define res).1, out)
   | .error _ =>
     return ((hs.define res).1, out)
+
+def judgeDef (cid : String) (o : Op) (raw : RawGrammar) (hs : HState) (out : Out) : HState × Out :=
+  judgeDefRes "C10" cid o (readGrammar raw) hs out
+
+/-- `yaep_parse_grammar`: the description text denotes a terminal/rule list (Model/Descr.lean) -/
+def judgeDescr (cid : String) (o : Op) (text : List UInt8) (strict : Bool) (hs : HState) (out : Out) : HState × Out := Id.run do
+  let mut out := out
+  let rawE := descrToRaw text strict
+  -- a name declared both with and without a code: outside what the property promises
+  let res := parseDescr text strict
+  let (hs', out') := judgeDefRes "C11" cid o res hs out
+  out := out'
+  let obs := (o.first "def").getD []
+  let rc := kvInt obs "rc"
+  if rc == 3 then
+    -- "description syntax error on ln <k>": the line number lies inside the text
+    let msg := (o.first "msg").getD []
+    let ln := (msg.getLast?.bind String.toNat?).getD 0
+    let nl := (text.filter (· == 10)).length
+    out := out.v cid o.n "C11" "K" (decide (1 ≤ ln) && decide (ln ≤ nl + 1)) s!"line number {ln} of {nl + 1} lines"
+  match rawE with
+  | .ok raw => out := out.s cid s!"descr terms={raw.terms.length} rules={raw.rules.length} rc={rc}"
+  | .error e => out := out.s cid s!"descr lexparse-error={e} rc={rc}"
+  return (hs', out)
 
 structure ParseCfg where
   maxTreeToks : Nat := 9
